@@ -5,7 +5,8 @@ _PROG = ("wiring programs of NNODES statements over {scripted source (at most MA
          "2-input: in0<in1, 3-input: in0<=in1<=in2), multi-input nodes wired either directly or through one TSL<TS<Int>,2|3> structural source (so also a TSL "
          "with a repeated element and TSL elements at different depths below a common source); programs with a 3-input node are combined with the extras "
          "none / one rank dependency only; plus exactly one extra from: none / stdlib::feedback loop F=add2(x,fb()), fb(F) / one add_rank_dependency(a,b) / "
-         "a nested child graph {A=add1(x); B=add2(A,y)} owned by a single_nested_graph_node and read by C=add1(nested) / a REF pass-through R=ref_copy(x) read by C=add1(R)")
+         "a nested child graph {A=add1(x); B=add2(A,y)} owned by a single_nested_graph_node and read by C=add1(nested) / a REF pass-through R=ref_copy(x) read by C=add1(R) / "
+         "(C01_eval only) a child graph {A=add1(x); B=add2(x,A)} wrapped by the real wire_try_except whose B throws in one enumerated evaluation (error captured, run continues)")
 
 reg("C01",
     name="C01_rank", src="harness/C01_rank.cpp",
@@ -33,7 +34,7 @@ reg("C01",
     thorough=dict(defs=dict(NNODES=4, MAXSRC=2, NCYC=3), symx=dict(shards=16, **{"max-wall": 3000, "shard-depth": 8})),
     reach=["end", "fan_in_with_unequal_depth", "both_inputs_ticked_in_one_cycle", "rank_dependency_reorders_statements", "nested_child_evaluated",
            "feedback_loop_ran", "read_through_reference_after_first_cycle", "tsl_structural_source", "same_producer_read_twice",
-           "tsl_elements_two_levels_apart"],
+           "tsl_elements_two_levels_apart", "child_cycle_after_captured_failure"],
     bounds=_PROG + " (only acyclic requests; rank dependencies only in the direction that contradicts statement order); run by the simulation executor for NCYC source "
            "cycles (+2 trailing), every source ticks or not in every cycle (all patterns enumerated), payloads symbolic in [-1000,1000]",
     outside="more than NNODES statements / NCYC cycles; nesting deeper than one level; push sources at run time; map_/switch_/reduce children (C10-C12); "
@@ -48,7 +49,7 @@ reg("C01",
     thorough=dict(defs=dict(NNODES=5, MAXSRC=1, NCYC=3), symx=dict(shards=16, **{"max-wall": 3000, "shard-depth": 8})),
     reach=["end", "fan_in_with_unequal_depth", "both_inputs_ticked_in_one_cycle", "rank_dependency_reorders_statements", "nested_child_evaluated",
            "feedback_loop_ran", "read_through_reference_after_first_cycle", "tsl_structural_source", "same_producer_read_twice",
-           "tsl_elements_two_levels_apart"],
+           "tsl_elements_two_levels_apart", "child_cycle_after_captured_failure"],
     bounds=_PROG + " (only acyclic requests; rank dependencies only in the direction that contradicts statement order) with 5 statements and a single source; "
            "run by the simulation executor for 3 source cycles (+2 trailing), all tick patterns, payloads symbolic in [-1000,1000]",
     outside="as C01_eval; additionally: coincident ticks of independent sources at 5 statements",
